@@ -31,6 +31,32 @@ def _step(a, w):
     return repr(a.h.wget(w, "states.step")).split(".")[-1]
 
 
+def queue_counter_coherence(ats_of, ev: Evidence, rule: str = "C10-R4") -> list[Finding]:
+    """the invariant behind C10-R2 - after every public call that returns normally the ready counter equals the queue length
+    (a put request issued before the user retrieved the PDUs of the previous transaction is outside: the user must retrieve them)"""
+    out: list[Finding] = []
+    for which in ("source", "dest"):
+        a = ats_of(which)
+        h = a.h
+        n_nodes = 0
+        bad4: dict[tuple, Any] = {}
+        for e in a.edges:
+            if e.dst is None or e.exc is not None:
+                continue
+            if e.label[0] == "put_request" and h.wget(e.pre, "_pdus_to_be_sent"):
+                continue
+            cnt, q = h.wget(e.post, "states._num_packets_ready"), h.wget(e.post, "_pdus_to_be_sent")
+            if isinstance(cnt, int) and not isinstance(cnt, bool) and isinstance(q, tuple):
+                n_nodes += 1
+                if cnt != len(q):
+                    bad4.setdefault((show_label(e.label), _step(a, e.pre), cnt, len(q)), e)
+        ev.inst(rule, f"{which} handler | {n_nodes} call results: counter == queue length on all but {len(bad4)} classes", "ok" if not bad4 else "violation")
+        for (lab, st, cnt, ql), e in sorted(bad4.items(), key=lambda kv: repr(kv[0])):
+            out.append(Finding(rule, f"{which} handler | counter {cnt} vs {ql} queued PDUs | call {lab} | entry step {st}",
+                               f"after {lab} from step {st} the handler reports {cnt} PDUs ready while {ql} are queued: get_next_packet/packets_ready disagree and a later call raises UnretrievedPdusToBeSent with nothing to retrieve", "", witness_of(a, e)))
+    return out
+
+
 def check(ctx: Ctx, ev: Evidence) -> list[Finding]:
     out: list[Finding] = []
     ev.rule("C10-R1", "exception classes escaping a public call: only cfdppy.exceptions classes raised explicitly, or a documented caller fault", 20)
@@ -125,28 +151,9 @@ def check(ctx: Ctx, ev: Evidence) -> list[Finding]:
     ev.extra["ats"] = stats
     ev.extra["states"] = sum(s["nodes"] for s in stats.values())
     ev.extra["transitions"] = sum(s["edges"] for s in stats.values())
-    # R4: the invariant behind R2 - after every public call that returns normally the ready counter equals the queue length
-    # (a put request issued before the user retrieved the PDUs of the previous transaction is outside: the user must retrieve them)
+    # R4
     ev.rule("C10-R4", "after every public call the ready-PDU counter equals the number of queued PDUs", 2)
-    for which in ("source", "dest"):
-        a = ctx.ats(which)
-        h = a.h
-        n_nodes = 0
-        bad4: dict[tuple, Any] = {}
-        for e in a.edges:
-            if e.dst is None or e.exc is not None:
-                continue
-            if e.label[0] == "put_request" and h.wget(e.pre, "_pdus_to_be_sent"):
-                continue
-            cnt, q = h.wget(e.post, "states._num_packets_ready"), h.wget(e.post, "_pdus_to_be_sent")
-            if isinstance(cnt, int) and not isinstance(cnt, bool) and isinstance(q, tuple):
-                n_nodes += 1
-                if cnt != len(q):
-                    bad4.setdefault((show_label(e.label), _step(a, e.pre), cnt, len(q)), e)
-        ev.inst("C10-R4", f"{which} handler | {n_nodes} call results: counter == queue length on all but {len(bad4)} classes", "ok" if not bad4 else "violation")
-        for (lab, st, cnt, ql), e in sorted(bad4.items(), key=lambda kv: repr(kv[0])):
-            out.append(Finding("C10-R4", f"{which} handler | counter {cnt} vs {ql} queued PDUs | call {lab} | entry step {st}",
-                               f"after {lab} from step {st} the handler reports {cnt} PDUs ready while {ql} are queued: get_next_packet/packets_ready disagree and a later call raises UnretrievedPdusToBeSent with nothing to retrieve", "", witness_of(a, e)))
+    out += queue_counter_coherence(lambda w: ctx.ats(w), ev)
     ev.extra["explanation"] = ("every public call (put_request, state_machine with no packet and with each of the 9 PDU kinds, cancel_request, get_next_packet drain, "
                                "public properties) interpreted abstractly from every reachable abstract state of both handlers; every exception edge classified")
     ev.assume("user callbacks, fault-handler callbacks and providers neither raise nor re-enter the handler")
